@@ -120,7 +120,7 @@ def run_unit(name, repo='/repo', rlimit=None, seed=None, twins=True, keep=None, 
         open(path, 'w').write(res.text)
         if keep:
             shutil.copy(path, keep)
-        cmd = [VERUS, path, '--triggers-mode', 'silent', '--multiple-errors', '50', '--error-format=json',
+        cmd = [VERUS, path, '--triggers-mode', 'silent', '--multiple-errors', '5', '--error-format=json', '-V', 'spinoff-all',
                '--no-report-long-running']
         if rlimit:
             cmd += ['--rlimit', str(rlimit)]
